@@ -128,6 +128,60 @@ def run(ctx):
     rets = [t for t in root.calls() if t.callee and t.callee.target_path(prog) == ctor_b.path]
     ctx.require(len(rets) >= 1, "R-C19-5", "reader-uses-constructor", "the reader hands its nodes and edges to the checked constructor", "the reader no longer builds its result with new_from_nodes_and_edges", loc_str(root.span))
 
+    # ------------------------------------------------------------------ R-C19-6 look-ahead only after an opening tag
+    # "the graph contains exactly the node and edge elements of the document": the reader consumes one EXTRA event
+    # (the text of a <data> element) inside the handler of an event.  That is harmless after an opening tag -- the next
+    # event belongs to the element -- but after a self-closed element (Event::Empty) the next event is the following
+    # sibling, which would be dropped from the document.
+    ctx.rule("R-C19-6", "the reader's look-ahead read (the text of <data>) happens only in the handler of Event::Start, never of Event::Empty")
+    hir = root.item.get("hir") or {}
+
+    def inside(inner, outer):
+        return inner and outer and inner["file"] == outer["file"] and (outer["line"], outer["col"]) <= (inner["line"], inner["col"]) and (inner["eline"], inner["ecol"]) <= (outer["eline"], outer["ecol"])
+
+    def event_variants(pat, out):
+        if isinstance(pat, dict):
+            for k in ("ts", "path", "st"):
+                v = pat.get(k)
+                if isinstance(v, str) and "::Event::" in v:
+                    out.add(v.split("::")[-1])
+            for v in pat.values():
+                event_variants(v, out)
+        elif isinstance(pat, list):
+            for v in pat:
+                event_variants(v, out)
+
+    def _has_event_pat(m_):
+        for a_ in m_["arms"]:
+            vs_ = set()
+            event_variants(a_["pat"], vs_)
+            if vs_:
+                return True
+        return False
+
+    ev_matches = [m for m in hir.get("matches", []) if _has_event_pat(m)]
+    reads = [t for t in root.calls() if t.callee and t.callee.short.endswith("read_event_into")]
+    n_look = 0
+    for t in reads:
+        sp = t.at or t.span
+        arms = []
+        for m in ev_matches:
+            for a in m["arms"]:
+                if inside(sp, a["body_span"]):
+                    vs_ = set()
+                    event_variants(a["pat"], vs_)
+                    if vs_ or a["pat"] == "_":
+                        arms.append(a)
+        if not arms:
+            continue  # the loop's own read
+        n_look += 1
+        outer = max(arms, key=lambda a: (a["body_span"]["eline"] - a["body_span"]["line"], a["body_span"]["ecol"]))
+        vs = set()
+        event_variants(outer["pat"], vs)
+        ctx.require(vs == {"Start"}, "R-C19-6", "lookahead|%d" % n_look, "the look-ahead read sits in the Event::Start handler",
+                    "the reader consumes an extra event in the handler of %s: after a self-closed element (Event::Empty) that event is the FOLLOWING element of the document, which is silently dropped from the graph" % (sorted(vs) or "a catch-all arm"), loc_str(t.span))
+    ctx.floor("R-C19-6", "lookahead_reads", n_look, 1)
+
     # ------------------------------------------------------------------ R-C19-4 declared directedness
     ctx.rule("R-C19-4", "the constructor's specs.directed depends on the document's edgedefault attribute; literal 'directed' selects true")
     fl = flows.of(root)
